@@ -25,8 +25,9 @@ let script_of site dup atts tail watch =
   let s = { gen = 0; closed = false; restarted = false; key = 1 } in
   let out = ref [] and phases = ref [] in
   let emit e = out := e :: !out in
-  let act held c =
+  let rec act held c =
     match (if s.closed then 0 else c) with
+    | 4 -> act held 1; act held 2
     | 1 -> s.gen <- s.gen + 1; s.restarted <- true; emit (Model.SEv Model.ERestart)
     | 2 -> if not s.closed then begin
         s.closed <- true; emit (Model.SEv Model.EClose);
